@@ -10,7 +10,8 @@ Model: `Abra.VM` (VMCore): every place where vm.rs would panic or read through a
   faults: it yields a next state, a documented runtime error, or `done`.  One contract per modelled instruction
   (binary/unary operators in the operand form the unoptimised compiler emits: top, top, top).
 * `C01_step_post_*` — what the step leaves (stack-height effect), used to chain contracts.
-* `C01_compile_safe_F0` — generated code meets the contracts: for an F0 program that is DepthSafe and whose reference
+* `C01_compile_safe_F0` — generated code meets the contracts: for an F0 program (no DepthSafe side condition: the
+  compile model follows 0c43abd and pops the pending operands before a `break`/`continue`) whose reference
   evaluation finishes (value or documented error), no bounded run of the compiled code ends in a fault — a
   corollary of the C02 simulation and determinism of `step`.
 
@@ -152,7 +153,8 @@ theorem C01_step_post_ret (P : Program) (s : State) (n : Nat) (hpc : P[s.pc]? = 
   simp
   omega
 
-/-- pushes add one value, binary operators on (top, top, top) remove one -/
+/-- stack-height effect of one instruction, `PushInt k`: it adds exactly `k` on top and advances the pc (the other
+    instructions' effects are not stated as theorems) -/
 theorem C01_step_post_push (P : Program) (s : State) (k : Int) (hpc : P[s.pc]? = some (.pushInt k)) :
     ∃ s', VM.step P s = .ok s' ∧ s'.stack = s.stack ++ [.int k] ∧ s'.pc = s.pc + 1 := by
   exact ⟨_, by simp [VM.step, hpc]; rfl, rfl, rfl⟩
